@@ -9,7 +9,7 @@ Deterministic; re-run after editing and commit the outputs.
 import json, os
 ROOT = os.path.dirname(os.path.dirname(os.path.dirname(os.path.abspath(__file__))))
 
-TY = {'usize': 'U8', 'u8': 'U1', 'u16': 'U2', 'u32': 'U4', 'u64': 'U8', 'bool': 'B', 'Vec<u8>': 'L(U1)', 'Vec<u16>': 'L(U2)',
+TY = {'usize': 'U8', 'Vec<u64>': 'L(U8)', 'Vec<bool>': 'L(B)', 'Vec<u32>': 'L(U4)', 'u8': 'U1', 'u16': 'U2', 'u32': 'U4', 'u64': 'U8', 'bool': 'B', 'Vec<u8>': 'L(U1)', 'Vec<u16>': 'L(U2)',
       'Vec<Vec<u8>>': 'L(L(U1))', 'Option<u16>': 'O(U2)', '[u8; 0]': 'X0',
       'Wide': 'U4'}  # Wide: only as a skipped field or behind the wide4 module (its own codec is 8 bytes)
 WITH = {'leg_u16': ('Option<u16>', 'LO(U2)'), 'leg_vec_u16': ('Option<Vec<u16>>', 'LO(L(U2))'), 'plain_u32': ('u32', 'U4'),
@@ -45,6 +45,15 @@ STRUCTS = [
     dict(name='S21', beh=None, kind='named', fields=[F('w', 'Wide', '', 'wide4'), F('v', 'Vec<u8>')]),
     dict(name='S22', beh=None, kind='named', fields=[F('w', 'Wide', '', 'wide4')]),
     dict(name='S23', beh=None, kind='named', fields=[F('x', 'Wide', 'sd'), F('w', 'Wide', '', 'wide4'), F('o', 'Option<u16>', '', 'leg_u16')]),
+    # other attributes (doc comments, lints) written BEFORE the #[ssz(..)] attribute of a field
+    dict(name='S31', beh=None, kind='named', fields=[
+        dict(F('a', 'Option<u16>', '', 'leg_u16'), pre='/** the legacy field */ #[allow(dead_code)] '),
+        dict(F('x', 'u8', 'sd'), pre='#[allow(dead_code)] /** skipped */ '),
+        F('v', 'Vec<u8>')]),
+    dict(name='S32', beh=None, kind='named', fields=[
+        F('v', 'Vec<u8>'),
+        dict(F('w', 'Wide', '', 'wide4'), pre='/// fixed-size custom codec\n    '),
+        dict(F('a', 'Option<u16>', '', 'leg_u16'), extra='#[allow(dead_code)]')]),
     # `with` combined with a one-sided skip: the field is still live in the other direction
     dict(name='S26', beh=None, kind='named', fields=[F('a', 'u8'), F('w', 'Wide', 'd', 'wide4'), F('c', 'u16')]),
     dict(name='S27', beh=None, kind='named', fields=[F('a', 'u8'), F('w', 'Wide', 's', 'wide4'), F('c', 'u16')]),
@@ -71,6 +80,13 @@ GENERICS = [
     # (name, generics decl, where clause, fields with T, instantiation, field descs after instantiation)
     dict(name='G1', decl='<T: ssz::Encode + ssz::Decode>', where='', fields=[('a', 'T'), ('b', 'Vec<T>')], inst='u16', tys=['u16', 'Vec<u16>']),
     dict(name='G2', decl='<T>', where='where T: ssz::Encode + ssz::Decode', fields=[('v', 'Vec<T>'), ('a', 'T')], inst='u8', tys=['Vec<u8>', 'u8']),
+    # further instantiations of the SAME generic definitions (anything cached per definition instead of per
+    # instantiation shows up here)
+    dict(name='G1', decl=None, where='', fields=[('a', 'T'), ('b', 'Vec<T>')], inst='u64', tys=['u64', 'Vec<u64>']),
+    dict(name='G1', decl=None, where='', fields=[('a', 'T'), ('b', 'Vec<T>')], inst='bool', tys=['bool', 'Vec<bool>']),
+    dict(name='G2', decl=None, where='', fields=[('v', 'Vec<T>'), ('a', 'T')], inst='u32', tys=['Vec<u32>', 'u32']),
+    dict(name='G3', decl='<T: ssz::Encode + ssz::Decode>', where='', fields=[('x', 'u8'), ('a', 'T'), ('y', 'u16')], inst='u8', tys=['u8', 'u8', 'u16']),
+    dict(name='G3', decl=None, where='', fields=[('x', 'u8'), ('a', 'T'), ('y', 'u16')], inst='u64', tys=['u8', 'u64', 'u16']),
 ]
 
 def fdesc(f):
@@ -91,6 +107,7 @@ def struct_desc(s):
     return f"DS{b}{e}(" + ';'.join(fs) + ")"
 
 def field_attr(f, extra=None):
+    pre = f.get('pre') or ''
     parts = []
     if f['with_']:
         parts.append(f'with = "{f["with_"]}"')
@@ -98,7 +115,7 @@ def field_attr(f, extra=None):
         parts.append('skip_serializing')
     if 'd' in f['flags']:
         parts.append('skip_deserializing')
-    out = ''
+    out = pre
     if parts:
         out += f"#[ssz({', '.join(parts)})] "
     if extra:
@@ -163,13 +180,14 @@ def main():
         names.append(s['name'])
     for g in GENERICS:
         fields = ' '.join(f"pub {n}: {t}," for n, t in g['fields'])
-        out.append(f"#[derive(ssz_derive::Encode, ssz_derive::Decode, Clone, PartialEq, Debug)]\npub struct {g['name']}{g['decl']} {g['where']} {{ {fields} }}\n")
+        if g['decl'] is not None:
+            out.append(f"#[derive(ssz_derive::Encode, ssz_derive::Decode, Clone, PartialEq, Debug)]\npub struct {g['name']}{g['decl']} {g['where']} {{ {fields} }}\n")
         inst = f"{g['name']}<{g['inst']}>"
         desc = "DS--(" + ';'.join('n0:' + TY[t] for t in g['tys']) + ")"
         vals = ', '.join(f"crate::model::Model::to_val(&self.{n})" for n, _ in g['fields'])
         ctor = g['name'] + ' { ' + ', '.join(f"{n}: <{t} as crate::model::Model>::gen(g, size)" for (n, _), t in zip(g['fields'], g['tys'])) + ' }'
         out.append(f"""impl crate::derive::DModel for {inst} {{
-    fn name() -> &'static str {{ "{g['name']}" }}
+    fn name() -> &'static str {{ "{g['name']}<{g['inst']}>" }}
     fn def_desc() -> String {{ "{desc}".to_string() }}
     fn symmetric() -> bool {{ true }}
     fn to_val_all(&self) -> String {{
